@@ -12,8 +12,12 @@ HCFG = dict(nval=3, batch=3, init=dict(pcT=2, certT=2, w=[1, 1, 1], gens=[1, 2, 
             choices=[dict(pcT=2, certT=2, w=[1, 1, 0], gens=[2, 1]), dict(pcT=3, certT=3, w=[2, 1, 1], gens=[3, 1, 2])],
             now=12, network=True)
 
-def generate(ctx, name, traces, depth, seed, **cfgkw):
-    cfg = c01.write_cfg(ctx, name, c01.cfg_text("Node_sim", **cfgkw))
+def generate(ctx, name, traces, depth, seed, no_probes=False, **cfgkw):
+    text = c01.cfg_text("Node_sim", **cfgkw)
+    if no_probes:
+        # runs aimed at apply / delete behaviour: no single-rule mutants at the end of the scripts (the tie-break probes stay)
+        text = text.replace("Mutations <- AllMutations", "Mutations = {}")
+    cfg = c01.write_cfg(ctx, name, text)
     r = ctx.tlc("MCNode", cfg, workers=1, timeout=1800, simulate=traces, depth=depth, seed=seed)
     if r["violation"]:
         raise Inconclusive("Node.tla violates one of its own properties: %s" % r["outpath"])
@@ -43,6 +47,58 @@ def exhaustive(ctx):
         raise Inconclusive("Node.tla violates one of its own properties: %s" % r["outpath"])
     return r
 
+# wider script actions of the simulation runs (defaults of Node.tla = the narrow ones): two restarts, one invalid successor
+# in the middle of the script, blocks with 0..3 transactions and an asset independent of a validator change, tie-break competitors with
+# transactions / a validator change
+WIDE = dict(MaxRestart=2, MaxMutant=1, PayloadMix="TRUE", TieNtx="{0, 1, 2}", TieChg="{0, 1}")
+
+def family_owner(key):
+    """does any property of the Node family (C03, C04, C05) own this violation key?"""
+    from props import c04, c05
+    return key.startswith(C03_KEYS) or key.startswith(c04.C04_NODE) or key.startswith(c05.C05_KEYS)
+
+def node_runs(ctx, binp, only=None):
+    """the script families replayed by cmd/c03; returns (merged result, first script file, per-run info)"""
+    quick = ctx.tier == "quick"
+    runs = []
+    # (1) general behaviours
+    runs.append(("sim", dict(traces=150 if quick else 1500, depth=16, seed=ctx.seed, kw=dict(WIDE, MaxRestart=1, MaxSteps=14, DumpEvery=16 if quick else 12)), HCFG))
+    # (2) reverts down to the finalized height (what a sync with a chain forking below it attempts): straight to finality,
+    # then DeleteDown / deletes / tie breaks / restarts / new blocks on the finalized prefix; block cache of 3 blocks, so
+    # that finalized heights are served from the database and DeleteDown / restarts reload the cache
+    runs.append(("deep", dict(traces=60 if quick else 600, depth=18, seed=ctx.seed + 77,
+                              kw=dict(DeepRevert="TRUE", MaxChg=0, MaxDel=3, MaxSteps=16, DumpEvery=6, MaxRestart=2, MaxMutant=1)), dict(HCFG, cacheSize=3)))
+    # (3) C05: chains long enough for the BFT window (9 headers) to slide and for parameter / generator keys to be pruned
+    # (two validator changes, the certified height moves); deletes and tie breaks only while one of the two topmost blocks
+    # (DeleteDown: one of the blocks it removes) pruned such keys when it was applied, restarts only from height 8 on
+    runs.append(("prune", dict(traces=64 if quick else 800, depth=24, seed=ctx.seed + 131, no_probes=True,
+                               kw=dict(MaxLen=14, Now=18, MaxChg=2, MaxDel=4, MaxTie=1, MaxSteps=22, RevertFrom=8, RevertNearPrune="TRUE", DumpEvery=24, MaxRestart=1)), dict(HCFG, now=18)))
+    # (4) C05: many apply / remove cycles on short chains on which nothing becomes final (no delete is ever refused):
+    # three blocks at one height, delete - restart - delete - restart, temporary blocks overwritten
+    runs.append(("cycles", dict(traces=40 if quick else 500, depth=22, seed=ctx.seed + 173, no_probes=True,
+                                kw=dict(WIDE, MaxLen=6, KeepFinZero="TRUE", MaxDel=6, MaxTie=4, MaxSteps=20, DumpEvery=24)), HCFG))
+    res = None; first = None; info = {}
+    for name, g, hcfg in runs:
+        if only and name not in only:
+            continue
+        sf, n = generate(ctx, name, g["traces"], g["depth"], g["seed"], no_probes=g.get("no_probes", False), **g["kw"])
+        r = replay(ctx, binp, sf, hcfg, name)
+        info[name] = dict(scripts=r["scripts"], steps=r["steps"], file=sf)
+        first = first or sf
+        res = common.merge_results(res, r)
+    if ctx.pid == "C03":
+        # (5) C03 only (impl-NodeA): four validators of unequal weight, see weights_run
+        r, sfw = weights_run(ctx, binp)
+        info["w4321"] = dict(scripts=r["scripts"], steps=r["steps"], file=sfw)
+        res = common.merge_results(res, r)
+    ctx.node_res = res
+    if os.environ.get("VERIF_EXPERIMENTAL") == "1":
+        # genesis block at a height > 0 (a chain started from a snapshot).  EXPERIMENTAL: on the tree of 2026-09-24 no such
+        # node initialises (Chain.PrepareCache asks for heights below the genesis block): reported under its own key
+        r = replay(ctx, binp, info["deep"]["file"], dict(HCFG, cacheSize=3, genesisHeight=1000), "genesis1000")
+        res = common.merge_results(res, r)
+    return res, first, info
+
 def run_node(ctx, keys_for_pid, extra=None):
     """shared by C03/C04/C05: keys_for_pid(key) -> True if a violation key belongs to this property"""
     binp = ctx.go_build("./cmd/c03")
@@ -50,63 +106,154 @@ def run_node(ctx, keys_for_pid, extra=None):
         d = json.load(open(ctx.replay))["replay"]
         sf = ctx.path("replay.ndjson")
         open(sf, "w").write(json.dumps(dict(script=d["script"], probes=[d["probe"]] if d.get("probe") else [])) + "\n")
-        res = replay(ctx, binp, sf, HCFG, "replay")
+        hcfg = dict(HCFG)
+        hcfg.update(d.get("hcfg") or {})
+        res = replay(ctx, binp, sf, hcfg, "replay")
         for v in res.get("violations") or []:
             ctx.violation(v["key"], v["what"], v.get("replay"))
         finish(ctx, LEVEL, dict(traces_validated_against_impl=res["scripts"], samples=[d["script"][:2]]))
     exhaustive(ctx)
-    traces = 150 if ctx.tier == "quick" else 1500
-    sf, n = generate(ctx, "sim", traces, 14, ctx.seed, DumpEvery=8 if ctx.tier == "quick" else 6)
-    res = replay(ctx, binp, sf, HCFG, "sim")
-    # reverts down to the finalized height (what a sync with a chain forking below it attempts): straight to finality,
-    # then DeleteDown / deletes / tie breaks / restarts / new blocks on the finalized prefix
-    sf2, n2 = generate(ctx, "deep", 60 if ctx.tier == "quick" else 600, 16, ctx.seed + 77, DeepRevert="TRUE", MaxChg=0, MaxDel=3, MaxSteps=14, DumpEvery=3)
-    res2 = replay(ctx, binp, sf2, HCFG, "deep")
+    res, sf, info = node_runs(ctx, binp)
     deep = 0
-    for line in open(sf2):
+    for line in open(info["deep"]["file"]):
         sc = json.loads(line)["script"]
         if any(sc[i]["op"] == "delete" and not sc[i]["ok"] and sc[i - 1]["op"] == "delete" and sc[i - 1]["ok"] for i in range(1, len(sc))):
             deep += 1
-    for k, v in res2.items():
-        if isinstance(v, int) and not isinstance(v, bool):
-            res[k] = res.get(k, 0) + v
-        elif isinstance(v, dict):
-            for kk, vv in v.items():
-                res[k][kk] = res[k].get(kk, 0) + vv
-        elif isinstance(v, list) and k == "violations":
-            res[k] = (res.get(k) or []) + v
     res["deep_reverts"] = deep
-    other = []
+    other = []; unowned = []
     for v in res.get("violations") or []:
         if keys_for_pid(v["key"]):
             ctx.violation(v["key"], v["what"], v.get("replay"))
+        elif not family_owner(v["key"]):
+            # a key none of C03 / C04 / C05 claims would be dropped by all three checks: every one of them reports it
+            unowned.append(v["key"])
+            ctx.violation(v["key"], v["what"], v.get("replay"))
         else:
             other.append(v["key"])
+    st = res.get("step_stats") or {}
     log("[node] scripts=%d steps=%d blocks=%d deletes=%d restarts=%d probes=%d finality=%d roundtrips=%d reorgs=%d violations=%s" % (
         res["scripts"], res["steps"], res["blocks_accepted"], res["deletes"], res["restarts"], res["probes"],
         res["scripts_with_finality"], res["apply_delete_roundtrips_compared"], res["reorg_equivalences_compared"],
         sorted(set(v["key"] for v in res.get("violations") or []))))
+    log("[node] runs: %s" % {k: (v["scripts"], v["steps"]) for k, v in info.items()})
+    log("[node] step statistics: %s" % json.dumps(st, sort_keys=True))
     if other:
         log("[node] note: violations belonging to other properties of the Node family were observed: %s" % sorted(set(other)))
+    if unowned:
+        log("[node] note: violation keys owned by no property of the Node family (reported by each of them): %s" % sorted(set(unowned)))
     log("[node] reverts down to the finalized height replayed: %d" % res["deep_reverts"])
     if not ctx.violations and res["deep_reverts"] == 0:
         raise Inconclusive("no script reverted down to the finalized height: vacuous for finality under deep reverts")
     if not ctx.violations and (res["blocks_accepted"] < 100 or res["probes"] < 500 or res["scripts_with_finality"] == 0 or len(res["probe_kinds"]) < 20):
         raise Inconclusive("scripts did not exercise enough (blocks/probes/finality): vacuous")
+    if not ctx.violations:
+        # non-vacuity of the scenarios added for C04 / C05 (a run in which one of them never happened proves nothing about it)
+        floors = dict(mutant_steps=10, blocks_accepted_after_a_rejected_step=10, finality_raises_after_a_rejected_step=3,
+                      scripts_with_two_restarts=3, restarts_after_a_delete=10, finalized_ids_read_below_the_cache_window=20,
+                      deletes_whose_diff_restores_deleted_keys=20, scripts_with_four_or_more_deletes=3,
+                      scripts_applying_three_blocks_at_one_height=3, deleted_blocks_with_asset_and_no_transaction=1,
+                      tiebreaks_with_transactions_or_validator_change=3, refused_tiebreak_dumps_compared=20, finalize_events_compared=50)
+        low = {k: st.get(k, 0) for k, f in floors.items() if st.get(k, 0) < f}
+        if res["apply_delete_roundtrips_compared"] < 400 or res["reorg_equivalences_compared"] < 200:
+            low["roundtrips/reorg equivalences"] = (res["apply_delete_roundtrips_compared"], res["reorg_equivalences_compared"])
+        if low:
+            raise Inconclusive("Node scripts did not reach the scenarios they are generated for (count below its floor): %s" % low)
     sample = json.loads(open(sf).readline())
     cov = dict(traces_validated_against_impl=res["scripts"], samples=[dict(script=sample["script"][:3], probes=[p["mut"] for p in sample["probes"]][:10])],
                replayed_steps=res["steps"], blocks_accepted=res["blocks_accepted"], deletes=res["deletes"], restarts=res["restarts"],
                mutant_blocks_submitted=res["probes"], mutation_classes=res["probe_kinds"], scripts_with_finality=res["scripts_with_finality"], reverts_down_to_finalized_height=res["deep_reverts"],
                apply_delete_roundtrips_compared=res["apply_delete_roundtrips_compared"], reorg_equivalences_compared=res["reorg_equivalences_compared"],
+               script_families={k: dict(scripts=v["scripts"], steps=v["steps"]) for k, v in info.items()}, step_statistics=st,
                rule="TLC simulation of Node.tla generates scripts; every step is replayed on the real Executer and the projected state / events compared; "
                     "every single-rule mutant of the final state's valid successor is submitted and must be rejected leaving DB, BFT heights and events unchanged")
     if extra:
         cov.update(extra(ctx) or {})
     finish(ctx, LEVEL, cov, assumptions=[
-        "toy application (deterministic state root chain) instead of pkg/framework", "3 validators, batch size 3, <= 9 blocks per script",
+        "toy application (deterministic state root chain) instead of pkg/framework", "3 validators, batch size 3, <= 9 blocks per script (<= 14 in the run aimed at BFT-store pruning)",
         "real time is pinned mid-slot by a 100000 s block time", "BLS / Ed25519 / SHA-256 trusted"])
+
+# ---------------------------------------------------------------------------------------------- C03: weights run, guards
+# Node_w4321.cfg: four validators of weight 4/3/2/1 (in the harness the order of their addresses - 4,1,3,2 - differs from
+# the order of their BLS keys - 4,2,3,1 -, so a verifier that pairs weights and keys by position miscounts), certificate
+# threshold 7: the scripts carry VALID aggregate commits by every minimal signer set ({1,2}, {1,3,4}, everybody), the probes
+# certificates by the sets just below the threshold ({2,3,4}, {1,3}, {1,4}: `ac-lightsigners`); wider valid successors (0..3
+# transactions, a payload of exactly the maximal size, timestamps at the first / last second of the slot) on a toy
+# application that emits no "before" event (a block without transactions has NO events)
+HCFG_W = dict(nval=4, batch=4, init=dict(pcT=4, certT=7, w=[4, 3, 2, 1], gens=[1, 2, 3, 4]),
+              choices=[dict(pcT=4, certT=6, w=[3, 4, 2, 0], gens=[2, 1, 3]), dict(pcT=5, certT=5, w=[1, 2, 3, 4], gens=[4, 3, 2, 1])],
+              now=14, network=True, noBeforeEvent=True)
+
+def weights_run(ctx, binp):
+    quick = ctx.tier == "quick"
+    cfg = c01.write_cfg(ctx, "w4321", c01.cfg_text("Node_w4321", DumpEvery=10 if quick else 5))
+    r = ctx.tlc("MCNode", cfg, workers=1, timeout=1800, simulate=8 if quick else 150, depth=14, seed=ctx.seed + 211)
+    if r["violation"]:
+        raise Inconclusive("Node.tla (Node_w4321) violates one of its own properties: %s" % r["outpath"])
+    sf = ctx.path("w4321_scripts.ndjson")
+    seen = set(); light = 0; minimal = 0; shapes = {}
+    with open(sf, "w") as fh:
+        for d in ctx.dumps(r["out"]):
+            k = json.dumps(d["script"], sort_keys=True)
+            if k in seen:
+                continue
+            seen.add(k); fh.write(json.dumps(d) + "\n")
+            for st in d["script"]:
+                if st.get("op") == "block" and st.get("accepted"):
+                    if st["ac"]["kind"] == "valid" and len(st["ac"]["signers"]) < 4:
+                        minimal += 1
+                    if st.get("payload") == "max":
+                        shapes["payload-max"] = shapes.get("payload-max", 0) + 1
+                    if st.get("ts") in ("last", "first"):
+                        shapes["ts-" + st["ts"]] = shapes.get("ts-" + st["ts"], 0) + 1
+                    if st.get("ntx", 0) >= 3:
+                        shapes["ntx3"] = shapes.get("ntx3", 0) + 1
+    printed = sum(1 for l in r["out"].splitlines() if l.lstrip().startswith('<<"DUMP"'))
+    parsed = sum(1 for _ in ctx.dumps(r["out"]))
+    if printed != parsed:
+        # a DUMP line the parser could not read (e.g. wrapped by TLC) would lower the coverage silently
+        raise Inconclusive("Node_w4321: %d DUMP lines printed by TLC but %d parsed" % (printed, parsed))
+    res = replay(ctx, binp, sf, HCFG_W, "w4321")
+    for v in res.get("violations") or []:
+        # bin/check --replay repeats a witness of this run on the 4-validator configuration
+        if isinstance(v.get("replay"), dict):
+            v["replay"]["hcfg"] = dict(HCFG_W)
+    res["w4321"] = dict(valid_commits_by_a_minimal_signer_set=minimal, valid_shapes=shapes)
+    return res, sf
+
+# floors of the probe statistics: a run in which one of the scenarios below never happened is inconclusive, not a pass
+C03_KIND_FLOORS = {
+    # (kind or kind prefix, minimal number of probes)
+    "version-0": 50, "version-3": 50, "mhp-1": 20, "slot-past": 50, "slot-same-last": 50, "slot-future-first": 50,
+    "sig-stale-ac": 50, "sig-stale-ac@ac": 10, "tx-static-command": 50, "tx-static-params-size": 50, "tx-static-sender-len": 50,
+    "tx-static-no-sigs": 50, "tx-static-short-sig": 50, "tx-static-last": 50, "assets-unsorted": 50, "assets-duplicate": 50,
+    "eventroot-altered-data": 50, "eventroot-altered-topic": 50, "vhash-other-set": 50, "vhash-old-on-change": 10,
+    "payload-max+1": 50, "ac-lightsigners": 10, "tiebreak-txstatic-no-sigs": 10, "tiebreak-assets-unsorted": 10,
+    "tiebreak-assets-duplicate": 10, "tiebreak-payload-max+1": 10,
+}
+
+def c03_guards(ctx):
+    """extra() hook of run_node for C03: non-vacuity of the probe section + coverage counts"""
+    res = getattr(ctx, "node_res", None) or {}
+    kinds = res.get("probe_kinds") or {}
+    ps = res.get("probe_stats") or {}
+    w = res.get("w4321") or {}
+    if not ctx.violations:
+        low = {k: kinds.get(k, 0) for k, f in C03_KIND_FLOORS.items() if kinds.get(k, 0) < f}
+        if ps.get("offered_as_own_block", 0) < res.get("probes", 0) or ps.get("offered_as_own_block", 0) < 500:
+            low["offered_as_own_block"] = ps.get("offered_as_own_block", 0)
+        if ps.get("on_blocks_without_events", 0) < 50:
+            low["probes_on_blocks_without_events"] = ps.get("on_blocks_without_events", 0)
+        if w.get("valid_commits_by_a_minimal_signer_set", 0) < 5:
+            low["valid_commits_by_a_minimal_signer_set"] = w.get("valid_commits_by_a_minimal_signer_set", 0)
+        for k in ("payload-max", "ts-last", "ts-first", "ntx3"):
+            if (w.get("valid_shapes") or {}).get(k, 0) < 3:
+                low["valid_" + k] = (w.get("valid_shapes") or {}).get(k, 0)
+        if low:
+            raise Inconclusive("C03 probes did not reach the scenarios they are generated for (count below its floor): %s" % low)
+    log("[c03] probe statistics: %s; unequal-weight run: %s" % (json.dumps(ps, sort_keys=True), json.dumps(w, sort_keys=True)))
+    return dict(probe_statistics=ps, unequal_weight_run=w)
 
 C03_KEYS = ("accepts-invalid", "reject-changes-state", "reject-emits-events", "rejects-valid", "panic:process", "state-mismatch:tip", "state-mismatch:bftheights", "events-mismatch", "observe")
 
 def run(ctx):
-    run_node(ctx, lambda k: k.startswith(C03_KEYS))
+    run_node(ctx, lambda k: k.startswith(C03_KEYS), extra=c03_guards)
